@@ -34,9 +34,9 @@ CLAIMED = {
     'C17': ('4/C17', 'edge-dominance guards and precedence of the per-directory candidates, first-hit reachability in search-path order, loop shape of the package walk, def-use derivation of the dotted name, guard table of __init__/__main__ normalisation, FLOW of directory and name into the import by path'),
     'C18': ('4/C18', 'AFFINE numbering of displayed lines, PATH-COUNT of source and want line emission'),
     'C19': ('4/C19', 'PATH-COUNT of emitted functions per example and body entries per part, identity components of the generated name (TABLE-AGREE with unique_callname), constant formatting options, drop guard of executable lines, want-comment FLOW through utils.indent'),
+    'C20': ('4/C20', 'REGEX-FACT of the accepted directive prefixes on a finite sample set, TABLE-AGREE of option names and defaults, polarity parsing, label-transition guard of the bare continuation, guards of the single compile mode, def-use sources of the compared text (REPL display), expected-traceback acceptance (C03.R2)'),
 }
 NA = {
-    'C20': 'behavioural equivalence with the stdlib doctest over all programs needs the stdlib as an executable oracle; the known counter-example (print-and-return) is not a structural defect',
 }
 
 
